@@ -96,9 +96,22 @@ pub fn gen(o: &Opts, sink: &mut dyn FnMut(Vec<i64>, String)) {
         let pre = 1 + rng.below(4); let post = 1 + rng.below(4);
         // (statuses of every class incl. a running engine before the silence; waits on both sides of
         //  the 2000 ms transition timeout and long enough to outlive any sub-second staleness rule)
-        for _ in 0..pre { let l = *rng.pick(&[1u64, 2, 3, 4, 3, 5, 6, 8, 9, 10, 10, 0]); letter(l, &mut rng, &mut c); }
+        let mut last_cmd: Option<Vec<i64>> = None;
+        for _ in 0..pre {
+            let l = *rng.pick(&[1u64, 2, 3, 4, 3, 5, 6, 8, 9, 10, 10, 0]);
+            let at = c.len(); letter(l, &mut rng, &mut c);
+            if c[at] == 2 { last_cmd = Some(c[at..].to_vec()); }
+        }
         c.extend([4, *rng.pick(&[2100i64, 2100, 1200, 600])]);
-        for _ in 0..post { let l = *rng.pick(&[0u64, 0, 2, 5, 1, 11]); letter(l, &mut rng, &mut c); }
+        // after the silence: cycles, statuses, and commands again - in particular the SAME command
+        // re-issued (a client repeating its request must restart the transition timeout)
+        for _ in 0..post {
+            match rng.below(8) {
+                0 | 1 => { if let Some(lc) = &last_cmd { c.extend(lc.iter()); } else { letter(10, &mut rng, &mut c); } c.push(0); }
+                2 => { letter(10, &mut rng, &mut c); c.push(0); }
+                _ => { let l = *rng.pick(&[0u64, 0, 2, 5, 1, 11]); letter(l, &mut rng, &mut c); }
+            }
+        }
         c.push(0);
         sink(c, String::new());
     }
